@@ -853,6 +853,9 @@ static void vsx_explore(const struct vsx_scenario *sc, int bound) {
         vsx_token(tok, sizeof(tok), sc->name, r->pts, r->npoints);
         if (r->status == 3 || (r->status == 0 && !(WIFEXITED(status) && WEXITSTATUS(status) == 99) && !WIFSIGNALED(status))) {
             fprintf(stderr, "VSX: harness error in %s (status %d, wait status %#x): %s\n", tok, r->status, status, r->msg);
+            fprintf(stderr, "VSX: full prefix of the failing job (%d choices):", (int)job.len);
+            for (int k = 0; k < (int)job.len; ++k) fprintf(stderr, "%s%d", k ? "." : " ", job.choices[k]);
+            fprintf(stderr, "\n");
             exit(2);
         }
         for (int i = 0; i < r->npoints; ++i) vsx_set_add(&vsx_states, r->pts[i].digest);
